@@ -125,7 +125,14 @@ func readV2Header(buf []byte, r io.Reader) (*Header, error) {
 		case 0x31, 0x32: // Unix socket (TCP/UDP)
 			// Not implemented by haproxy and I see no need to implement it here, patches welcome!
 			return &h, errors.New("received UNIX socket proxy command, Currently not supported")
+		case 0x00: // UNSPEC, the receiver uses the real connection endpoints
+			h.IsLocal = true
+			offset = len(tr)
+		default:
+			return nil, fmt.Errorf("unsupported address family and protocol '%X'", buf[13])
 		}
+	default:
+		return nil, fmt.Errorf("unsupported command '%X'", buf[12]&0x0F)
 	}
 
 	// If there is trailing data, it should be TLVs
